@@ -1512,9 +1512,7 @@ func FunExpr(query *Query, current Map, expr *sqlparser.FuncExpr, opts ...ExprOp
 				defer query.wg.Done()
 				value, err := callFunction(function, query, current, slice)
 				if err != nil {
-					if query.options.errors != nil {
-						query.options.errors(err)
-					}
+					query.unreported(err)
 					return
 				}
 				rs = value
@@ -1540,9 +1538,7 @@ func FunExpr(query *Query, current Map, expr *sqlparser.FuncExpr, opts ...ExprOp
 			go func() {
 				_, err := callFunction(function, query, current, slice)
 				if err != nil {
-					if query.options.errors != nil {
-						query.options.errors(err)
-					}
+					query.unreported(err)
 				}
 			}()
 			return Ommit(true), nil
@@ -1561,9 +1557,7 @@ func FunExpr(query *Query, current Map, expr *sqlparser.FuncExpr, opts ...ExprOp
 				defer query.wg.Done()
 				_, err := callFunction(function, query, current, slice)
 				if err != nil {
-					if query.options.errors != nil {
-						query.options.errors(err)
-					}
+					query.unreported(err)
 				}
 			}()
 			return Ommit(true), nil
@@ -2316,6 +2310,20 @@ func callFunction(function Function, query *Query, current Map, args []any) (val
 
 // recovered turns a panic raised while building or evaluating a query into
 // the error New/Exec return
+// unreported hands the failure of a detached call to the caller's handler. The
+// handler runs on a goroutine the library started, where nobody else can
+// recover: like a panic of the function itself, a panic of the handler is
+// contained here instead of taking the process down
+func (query *Query) unreported(err error) {
+	if query.options.errors == nil {
+		return
+	}
+	defer func() {
+		_ = recover()
+	}()
+	query.options.errors(err)
+}
+
 func recovered(r any) error {
 	return EXPECTATION_FAILED.Extend(fmt.Sprintf("unexpected failure: %v", r))
 }
